@@ -859,3 +859,17 @@ def _expand_calls(ctx: Ctx, f: Func, t: Term, depth: int) -> Term:
             if g.name not in ("__init__", "__post_init__") and not isinstance(g.node, ast.Lambda):
                 return _expand_calls(ctx, g, ctx.X.return_term(g), depth + 1)
     return t
+
+
+@rule(P)
+def c08_8(ctx: Ctx) -> RuleResult:
+    """Shared with C07.2: the Jacobian SciPy receives for a point is the derivative of the value at that
+    point only if the normalised values *and* Jacobians are dropped together when the point changes."""
+    from .c07 import c07_2
+
+    r = c07_2(ctx)
+    r.instances = [i for i in r.instances if i.construct.startswith("nc.reset clears") or "normalised constraints" in i.construct]
+    for i in r.instances:
+        i.rule = "C08.8"
+    r.rule, r.title, r.floor = "C08.8", "normalised constraint values and Jacobians are invalidated together (a Jacobian is never one kept from another point)", 2
+    return r
